@@ -5,3 +5,11 @@ func c34Extra(r *Run) error {
 		"13 base stylesheets (selectors with every combinator, pseudo-classes, escaped delimiters, attribute selectors, at-rules, strings with escapes and comment-like content, quoted and unquoted url( ) with /* inside, calc, custom properties) x every token boundary x 12 fillers (nothing, white space, comments with and without white space around them, comments holding ; } ' \"), plus every white-space token replaced by a comment: about 6 700 stylesheets")
 	return nil
 }
+
+// c19Extra: a bounded corpus beside the proof, so that a rewrite of the scanner that no longer has the flags the
+// invariant names (the contract then cannot be bound: undecided) is still confronted with generated JSON texts.
+func c19Extra(r *Run) error {
+	r.boundedGoTest("C19-corpus", "JSONMinify(MarshalIndent(v)) decodes to v and holds no white space outside strings",
+		"every string of up to three pieces from {backslash, quote, space, two spaces, tab, newline, a, : , { } [ ] é, escaped backslash, escaped quote} as a value, as a key and inside an array, x three indentations: about 39 000 JSON texts")
+	return nil
+}
